@@ -351,7 +351,7 @@ def generate(repo=REPO, gen=GEN):
     import write_sites
     ws, ws_fns = write_sites.inventory(repo)
     txt_ws = ("-- GENERATED by translator/write_sites.py from the repository's current source. Do not edit.\n"
-              "namespace Metapype.Gen\n\n/-- (module, function, kind, statement, class ∈ local | rule | caller | tree) -/\n"
+              "namespace Metapype.Gen\n\n/-- (module, function, kind, statement, class ∈ local | rule | caller | module | tree) -/\n"
               "def writeSites : List (String × String × String × String × String) := [\n  " +
               ",\n  ".join(f"({lstr(x['module'])}, {lstr(x['function'])}, {lstr(x['kind'])}, {lstr(x['stmt'])}, {lstr(x['class'])})" for x in ws) +
               "\n]\n\n/-- functions reachable (by name) from the read-only entry points -/\n"
